@@ -75,6 +75,13 @@ def epoll_owner_rule(rep, u):
             rep.functions.add(fn.name)
             a0 = key(c["args"][0])
             ok = "tp_udata->tpt->io_fd" in a0
+            if not ok and "->io_fd" in a0:
+                # through a local that holds the record's (previous) thread: `old = tp_udata->tpt; ... old->io_fd`
+                b0 = core.base_ref(c["args"][0])
+                if b0 is not None and b0.get("dk") == "local":
+                    defs = [x["y"] for p2, r2, x, _ in fn.nodes() if x.get("k") == "bin" and x["op"] == "=" and core.is_ref(core.strip_casts(x["x"])) and
+                            core.strip_casts(x["x"]).get("id") == b0["id"]]
+                    ok = bool(defs) and all(key(core.strip_casts(d_)) == "tp_udata->tpt" for d_ in defs)
             desc = "%s: the registration of tp_udata->ident is changed in the epoll set of the thread it belongs to" % fn.name
             (rep.proved if ok else rep.violated)("R-EPFD", fn, "epoll-set-of-owner#%d" % n, desc, a0[:60] if ok else
                                                  "%s is the descriptor of the thread running the loop: for an event of the shared virtual thread the one-shot "
@@ -417,6 +424,67 @@ def live_record_rule(rep, u):
             (rep.proved if ok else rep.violated)("R-OUTDEF", fn, "live-record-stays", desc, "" if ok else
                                                  "add(t0, READ) then add(t1, READ) on the same record succeeds: it is in both epoll sets, both threads call back, del() removes "
                                                  "only t1's entry and t0 spins on the deleted record", x.get("ln"))
+    return n
+
+
+def live_record_moved_rule(rep, u):
+    """the guard of live-record-stays may refuse only the pool-owned kinds (timer, process watch): a read/write record that is
+    live on another thread is then MOVED - removed from the old thread's epoll set before it is installed on the new one
+    (the caller may have closed the descriptor, which is why a refusal would be wrong and the removal's error is ignored)"""
+    fn = tp.need(u, "tpt_ev_add")
+    rep.functions.add(fn.name)
+    stores = [pos for pos, root, x, ps in fn.nodes() if x.get("k") == "bin" and x["op"] == "=" and core.strip_casts(x["x"]).get("k") == "mem" and
+              core.strip_casts(x["x"])["f"] == "tpt" and core.strip_casts(x["y"]).get("dk") == "parm"]
+    if not stores:
+        raise driver.AnalysisBroken("tpt_ev_add: store of the thread not found")
+    kind_limited = False
+    for bid in fn.reachable_blocks():
+        cnd = fn.blocks[bid].cond
+        if cnd is None or stores[0][0] not in fn.reach_from([bid]):
+            continue
+        if any("TPDATA_EVENT_GET" in core.macros(y) for y, _ in _walk(cnd)) and any(stores[0][0] not in fn.reach_from([s_]) for s_ in fn.blocks[bid].rsucc()):
+            kind_limited = True
+    moved = False
+    for pos, root, c, ps in fn.calls({"epoll_ctl", "epoll_ctl_ex"}):
+        b0 = core.base_ref(c["args"][0])
+        if b0 is not None and b0.get("dk") == "local" and len(c["args"]) > 2 and "ident" in key(c["args"][2]):
+            defs = [x["y"] for p2, r2, x, _ in fn.nodes() if x.get("k") == "bin" and x["op"] == "=" and core.is_ref(core.strip_casts(x["x"])) and core.strip_casts(x["x"]).get("id") == b0["id"]]
+            if defs and all(key(core.strip_casts(d_)) == "tp_udata->tpt" for d_ in defs):
+                moved = True
+    ok = moved
+    desc = "tpt_ev_add: a read/write record live on another thread is removed from that thread's epoll set, then installed (not refused: the caller may have closed the descriptor)"
+    (rep.proved if ok else rep.violated)("R-OUTDEF", fn, "live-rw-record-moved", desc, "EPOLL_CTL_DEL on the previous thread's set" if ok else
+                                         ("the guard lets read/write records through and nothing removes them from the previous thread's epoll set: both threads call back" if kind_limited else
+                                          "every live record is refused with EBUSY: a record whose descriptor was closed (the kernel dropped the registration) can never be used on another thread again"))
+    return 1
+
+
+def other_kind_rule(rep, u, vals):
+    """add / enable of another kind of event on a record that is live (timer over read, read over timer, timer over process
+    watch ...) is refused: installing it would leak the pool's descriptor or lose the registration.  Evaluated on the
+    validator with tpdata = a live timer and the three other kinds (read <-> write stays a replacement)."""
+    from rules import r_stride
+    fv = tp.need(u, "tpt_ev_validate")
+    rep.functions.add(fv.name)
+    n = 0
+    TIMER, PROC, READ, WRITE = vals["TP_EV_TIMER"], vals["TP_EV_PROC"], vals["TP_EV_READ"], vals["TP_EV_WRITE"]
+    def live(kind):
+        return (1 << 62) | (kind << 32) | 6        # ADDED mark, kind, a descriptor + 1
+    for old_k, new_k, want_refused in ((TIMER, READ, True), (READ, TIMER, True), (PROC, TIMER, True), (TIMER, PROC, True), (READ, WRITE, False), (TIMER, TIMER, False)):
+        pe = r_stride.PE(u)
+        bind = {"op": vals["TP_CTL_ADD"], "ev": 0x3000, "tp_udata": 0x4000, "ev->event": new_k, "ev->flags": 0, "ev->fflags": 0, "ev->data": 5,
+                "tp_udata->tpdata": live(old_k), "tp_udata->cb_func": 0x5000, "tp_udata->ident": 7, "tp_udata->tpt": 0x6000, "tp_udata->tpt->tp": 0x7000,
+                "tp_udata->tpt->tp->fd_count": 1024}
+        ev, ret = pe.trace(fv, bind)
+        n += 1
+        inst = "live-kind-%d-add-kind-%d" % (old_k, new_k)
+        desc = "tpt_ev_validate: add of kind %d on a record live with kind %d is %s" % (new_k, old_k, "refused" if want_refused else "accepted")
+        if isinstance(ret, str):
+            rep.undecided("R-KIND", fv, inst, desc, ret)
+        elif (ret != 0) == want_refused:
+            rep.proved("R-KIND", fv, inst, desc, "status %s" % ret)
+        else:
+            rep.violated("R-KIND", fv, inst, desc, "status %s: add(READ) then add(TIMER) on the same record both return 0 - the read callback never comes, the worker spins, del(READ) says ENOENT" % ret)
     return n
 
 
